@@ -394,6 +394,80 @@ def run_retry_edges(spec: dict[str, Any]) -> dict[str, Any]:
             'aborted': aborted}
 
 
+def run_io_enter(spec: dict[str, Any]) -> dict[str, Any]:
+    """pymap/backend/maildir/io.py takes the FileLock of a control file
+    (dovecot-uidlist, subscriptions) and then reads the file.  When that read
+    fails (damaged header, I/O or permission error) the ``async with`` block
+    is left by the exception: the lock was granted, so its file must be gone
+    when the statement has been left -- judged inside the handler, while the
+    exception is still referenced, as a server that answers BYE and logs the
+    error holds it -- and again once it was dropped and the loop is idle."""
+    import asyncio
+    import os
+    import tempfile
+    from .. import loop as L
+    d = tempfile.mkdtemp(prefix='vf-c20io-')
+    viols: list[dict[str, Any]] = []
+    counters = {'io_enter_failures': 0, 'io_enter_controls': 0}
+    what = spec['what']
+
+    async def main(loop: Any) -> None:
+        if spec['file'] == 'uidlist':
+            from pymap.backend.maildir.uidlist import UidList as F
+        else:
+            from pymap.backend.maildir.subscriptions import Subscriptions as F
+        fpath, lpath = F.get_file(d), F.get_lock(d)
+        if what == 'garbage':
+            with open(fpath, 'wb') as f:
+                f.write(b'\xff\xfe not a header \x00\n\x80\x81\n')
+        elif what == 'directory':
+            os.mkdir(fpath)
+        elif what == 'unreadable-text':
+            with open(fpath, 'w') as f:
+                f.write('x y z\n1 2 3 4 5\n:::\n')
+        raised = None
+        try:
+            async with F.with_write(d) as obj:
+                pass
+        except Exception as exc:
+            raised = exc
+            if lpath is not None and os.path.exists(lpath):
+                viols.append({
+                    'mech': 'lock-not-released:enter-failed',
+                    'detail': '%s.with_write: reading the %s file raised %r '
+                    'after the lock was granted; the async-with statement '
+                    'has been left and the lock file is still there'
+                    % (F.__name__, what, exc)})
+        if raised is None:
+            counters['io_enter_controls'] += 1
+        else:
+            counters['io_enter_failures'] += 1
+        raised = None
+        await loop.quiescent()
+        if lpath is not None and os.path.exists(lpath) and not viols:
+            viols.append({'mech': 'lock-not-released',
+                          'detail': '%s.with_write (%s): lock file present '
+                          'after the block and an idle loop'
+                          % (F.__name__, what)})
+
+    aborted = None
+    try:
+        L.run(main, max_steps=100_000)
+    except L.Deadlock:
+        aborted = 'deadlock'
+    finally:
+        import shutil
+        shutil.rmtree(d, ignore_errors=True)
+    for v in viols:
+        v['witness'] = {'impl': 'file', 'spec': spec}
+    sig = hashlib.sha1(repr(('ioenter', sorted(spec.items()))).encode()
+                       ).hexdigest()[:16]
+    return {'violations': viols, 'counters': counters, 'sig': sig,
+            'nontrivial': True,
+            'sample': {'impl': 'file', 'mode': 'io-enter', 'spec': spec},
+            'aborted': aborted}
+
+
 def run_thread_script(spec: dict[str, Any]) -> dict[str, Any]:
     from .. import c20_threads as T
     if spec['script'] == 'threads-writer-joins-passing-reader':
@@ -444,7 +518,8 @@ class C20(Check):
               'free_probes': 50000, 'thread_reps': 300,
               'thread_requests_while_busy': 500, 'proc_rounds': 8,
               'proc_found_busy': 200, 'bodies_raised': 1000,
-              'retry_edge_runs': 60, 'retry_edge_last_retry_wins': 10}
+              'retry_edge_runs': 60, 'retry_edge_last_retry_wins': 10,
+              'io_enter_failures': 3}
     time_cap = {'quick': 150.0, 'thorough': 1500.0}
 
     def cases(self, tier: str, seed: int) -> Iterable[dict[str, Any]]:
@@ -547,7 +622,16 @@ class C20(Check):
                     for second in (False, True):
                         add(mode='retry-edges', n=n, k=kk, raises=raises,
                             second=second)
+        # 10. the users of FileLock in maildir/io.py: the read that follows
+        # the acquisition fails
+        for f in ('uidlist', 'subscriptions'):
+            for w in ('garbage', 'directory', 'unreadable-text', 'fine'):
+                add(mode='io-enter', file=f, what=w)
         rng.shuffle(out)
+        # the cheap deterministic cases first: a time cap under load must
+        # not cut them
+        out.sort(key=lambda c: c.get('mode') not in ('retry-edges',
+                                                      'io-enter'))
         return out
 
     def run_case(self, spec: dict[str, Any]) -> dict[str, Any]:
@@ -563,6 +647,8 @@ class C20(Check):
             return run_procs_case(spec)
         if mode == 'retry-edges':
             return run_retry_edges(spec)
+        if mode == 'io-enter':
+            return run_io_enter(spec)
         return explore(spec)
 
 
